@@ -2,6 +2,7 @@ import FordModel.Proto
 import FordModel.Links
 import FordModel.LinkSyntax
 import FordModel.LinkWarn
+import FordModel.InlineOrder
 namespace Ford
 open Proto Links
 
@@ -58,6 +59,7 @@ structure Query where
   path : Option Path
   ref : Ref
   text : Option Str := none   -- round 3: a whole documentation text (`T` lines); the model tokenizes it
+  pieces : Option (List Piece) := none   -- round 6: a text cut at its code spans (`C` lines)
 
 def queryOf (cwd : Path) (fs : List Str) : Query :=
   match fs with
@@ -108,6 +110,31 @@ def answerText (env : Env) (P : Project) (q : Query) (t : Str) : Str :=
    | .ok segs => joinSep '|' (['S'] :: segs.map showSeg)
    | .error e => joinSep '|' [['X'], errName e]) ++ '|' :: showWarns env P q ws
 
+/-- `C|ctx|path|c<code span content>|p<running text>|...` -/
+def pieceOf : Str → Piece
+  | 'c' :: t => .code t
+  | _ :: t => .plain t
+  | [] => .plain []
+
+def pieceQueryOf (cwd : Path) (fs : List Str) : Query :=
+  match fs with
+  | ctx :: path :: ps =>
+    { ctx := optNat ctx, path := if path == ['-'] then none else some (absOf cwd path),
+      ref := { name := [] }, pieces := some (ps.map pieceOf) }
+  | _ => { ctx := none, path := none, ref := { name := [] }, pieces := some [] }
+
+def showOutPiece : OutPiece → List Str
+  | .code s => ['C' :: s]
+  | .codeSegs l => ['K'] :: l.map showSeg
+  | .segs l => l.map showSeg
+
+/-- answer to a `C` query: the flattened pieces `S|Ccode|Pplain|Ltext;href|...` or `X|error`, then the warnings -/
+def answerPieces (env : Env) (P : Project) (q : Query) (ps : List Piece) : Str :=
+  (match convertPieces codeShielded linkCfg env P q.ctx q.path ps with
+   | .ok out => joinSep '|' (['S'] :: out.flatMap showOutPiece)
+   | .error e => joinSep '|' [['X'], errName e]) ++
+    '|' :: showWarns env P q (warnPieces codeShielded linkCfg env P q.ctx q.path ps)
+
 def showRef (r : Ref) : Str :=
   joinSep ';' [r.name, (r.kind.map (fun k => '+' :: k)).getD [], (r.child.map (fun k => '+' :: k)).getD [],
                (r.childKind.map (fun k => '+' :: k)).getD []]
@@ -119,9 +146,10 @@ def showRawSeg : Seg → Str
 /-- a `Q` query: the reference is written out and read back by the tokenizer, as the implementation
     is handed the written text; `V` = not recognised, the text stays verbatim -/
 def answer (env : Env) (P : Project) (q : Query) : Str :=
-  match q.text with
-  | some t => answerText env P q t
-  | none =>
+  match q.pieces, q.text with
+  | some ps, _ => answerPieces env P q ps
+  | none, some t => answerText env P q t
+  | none, none =>
     match segments linkCfg q.ref.render with
     | [.ref r] => answerRef env P { q with ref := r }
     | _ => "V|#W".toList
@@ -141,6 +169,7 @@ def feed (cwd : Path) (a : Acc) (f : Str) : Acc :=
       | _ => a
     else if t == ['Q'] then { a with queries := queryOf cwd rest :: a.queries }
     else if t == ['T'] then { a with queries := textQueryOf cwd rest :: a.queries }
+    else if t == ['C'] then { a with queries := pieceQueryOf cwd rest :: a.queries }
     else a
   | [] => a
 
